@@ -1,6 +1,6 @@
 #!/venv/bin/python
 """Self-test of check C15: apply one realistic seeded break by monkeypatching (never editing /repo), run a part
-of the check in-process and print the witness keys.  Usage: PYTHONHASHSEED=0 /venv/bin/python seeded/c15_breaks.py [name ...]
+of the check in-process and print the witness keys.  Usage: PYTHONHASHSEED=0 /venv/bin/python tools/selftest_c15.py [name ...]
 """
 
 from __future__ import annotations
@@ -117,6 +117,35 @@ def brk_change_call_deps_after_position():
         return built
 
     tf.TestFactory._build_replacement_node = _build_replacement_node
+
+
+def brk_PROPOSED_FIX_insert_rollback():
+    """Not a break: the proposed patch for length:insert-dependencies-overshoot (the check must go silent)."""
+    import pynguin.configuration as config
+    import pynguin.ga.operators.mutation as mu
+
+    from pynguin.utils import randomness
+
+    def _mutation_insert(self, chromosome):
+        changed = False
+        alpha = config.configuration.search_algorithm.statement_insertion_probability
+        exponent = 1
+        limit = config.configuration.search_algorithm.chromosome_length
+        while randomness.next_float() <= pow(alpha, exponent) and chromosome.size() < limit:
+            test_factory = chromosome.test_factory
+            max_position = chromosome.get_last_mutatable_statement()
+            max_position = 0 if max_position is None else max_position + 1
+            backup = chromosome.test_case.clone()
+            position = test_factory.insert_random_statement(chromosome.test_case, max_position)
+            exponent += 1
+            if chromosome.size() > limit:
+                chromosome.test_case = backup
+                continue
+            if 0 <= position < chromosome.size():
+                changed = True
+        return changed
+
+    mu.TestCaseMutation._mutation_insert = _mutation_insert
 
 
 BREAKS = {k[4:]: v for k, v in globals().items() if k.startswith("brk_")}
